@@ -1,6 +1,8 @@
 """C06 — proxies relay only to bridges inside their accepted pattern
 (common/namematcher, broker CheckProxyRelayPattern/ProxyPolls, proxy runSession/datachannelHandler)."""
+import json
 import os
+import time
 import vlib
 
 AREA = "namematcher"
@@ -145,20 +147,24 @@ def fresh_answer(single):
     if len(FRESH) >= 60:
         return None
     op = single.split(" ")[1]
-    exe = EXES.get("br" if op == "poll" else "px")
+    exe = EXES.get("br" if op in ("poll", "gate", "bseq") else "px")
     res = None
     if exe:
         rc, out, err = vlib.run_impl(exe, [single], args=TEST_ARGS)
         if rc == 0 and len(out) == 1:
             res = out[0]
             if "nm" in EXES:
-                ensure_facts(EXES["nm"], dialled_hosts(single, res))
+                ensure_facts(EXES["nm"], sess_dialled(single, res) if op == "sess" else dialled_hosts(single, res))
     FRESH[single] = res
     return res
 
 
 def facts_needed(line):
     a = line.split(" ")
+    if a[1] in ("gate", "bseq"):
+        return hist_facts_needed(line)
+    if a[1] == "sess":
+        return sess_facts_needed(line)
     if a[1] == "pollseq":
         al, need = a[2], []
         pr = a[3]
@@ -178,12 +184,265 @@ def facts_needed(line):
     return []
 
 
+# ---------------------------------------------------------------- machines: gate / bseq (one broker context), sess (one proxy)
+
+MACHINE_OPS = ("gate", "bseq", "sess")
+
+
+def fold_field(k):
+    return k.lower()
+
+
+def read_poll_body(body):
+    """Reference reading of a proxy poll body, independent of the Go decoder and of the Coq model:
+    None = not a well-formed version-1 poll as far as this reading can tell (no judgement is based on it);
+    else dict(sid=..., pattern=<bytes or None: field absent or null>, version=...)."""
+    try:
+        pairs = json.loads(body.decode("utf-8"), object_pairs_hook=list)
+    except (ValueError, UnicodeDecodeError):
+        return None
+    if not isinstance(pairs, list) or any(not isinstance(kv, tuple) for kv in pairs):
+        return None
+    st = dict(sid="", version="", type="", nat="", clients=0, accepted=None)
+    names = {"sid": "sid", "version": "version", "type": "type", "nat": "nat", "clients": "clients",
+             "acceptedrelaypattern": "accepted"}
+    for k, v in pairs:
+        f = names.get(fold_field(k))
+        if f is None:
+            continue
+        if v is None:
+            if f == "accepted":
+                st[f] = None
+            continue
+        if f == "clients":
+            if isinstance(v, bool) or not isinstance(v, int):
+                return None
+            st[f] = v
+        else:
+            if not isinstance(v, str):
+                return None
+            st[f] = v
+    if st["version"].split(".")[0] != "1" or st["sid"] == "" or st["nat"] not in ("", "unknown", "restricted", "unrestricted"):
+        return None
+    pat = st["accepted"]
+    return dict(sid=st["sid"], version=st["version"], pattern=None if pat is None else pat.encode("utf-8"))
+
+
+def hist_events(line):
+    """-> list of per-event dicts for a gate / bseq line: kind in poll|client|install; for polls: eff (hex of the
+    pattern the poll is to be judged by, None when this reading cannot tell), allowed (hex), explicit (bool), desc"""
+    a = line.split(" ")
+    al, pr = a[2], a[3]
+    out = []
+    for ev in a[4].split(","):
+        f = ev.split(":")
+        if f[0] == "c":
+            out.append(dict(kind="client", desc="client(%s)" % f[1]))
+        elif f[0] == "i":
+            al, pr = f[1], f[2]
+            out.append(dict(kind="install", desc="install(allowed=%r, presumed=%r)" % (unhx(al), unhx(pr))))
+        elif f[0] == "p":
+            explicit = f[3] == "s"
+            out.append(dict(kind="poll", eff=f[4] if explicit else pr, allowed=al, explicit=explicit,
+                            desc="poll(pattern=%r)" % unhx(f[4]) if explicit else "poll(legacy)"))
+        elif f[0] == "b":
+            body = unhx(f[1])
+            rd = read_poll_body(body)
+            if rd is None:
+                out.append(dict(kind="poll", eff=None, allowed=al, explicit=False, desc="poll(body=%r)" % body))
+            else:
+                explicit = rd["pattern"] is not None
+                out.append(dict(kind="poll", eff=hx(rd["pattern"]) if explicit else pr, allowed=al, explicit=explicit,
+                                desc="poll(body=%r)" % body))
+        else:
+            out.append(dict(kind="?", desc=ev))
+    return out
+
+
+def hist_facts_needed(line):
+    return [(e["eff"], e["allowed"], "x") for e in hist_events(line) if e["kind"] == "poll" and e["eff"] is not None]
+
+
+def hist_prop(line, impl):
+    """C06 on the implementation's account of a history on one broker context -> (message, key) or None"""
+    parts = impl.split(" ")
+    res = parts[0].split(",")
+    evs = hist_events(line)
+    if impl.startswith("!") or len(res) != len(evs):
+        return ("history of %d events answered with: %s" % (len(evs), impl[:300]), "broker-history-irregular")
+    waiting = set()
+    for i, (e, r) in enumerate(zip(evs, res)):
+        pos = i + 1
+        earlier = "[" + ", ".join(x["desc"] for x in evs[:i]) + "]"
+        if e["kind"] == "poll":
+            if r == "registered":
+                waiting.add(pos)
+                if e["eff"] is not None:
+                    sup = impl_judged_superset(e["eff"], e["allowed"])
+                    eff, allowed = unhx(e["eff"]), unhx(e["allowed"])
+                    if well_formed(eff) and well_formed(allowed):
+                        sup = sup and judged_superset(new_matcher(eff), new_matcher(allowed))
+                    if not sup:
+                        return ("event %d of a history on one broker context: broker registered a %s %s whose pattern %r is "
+                                "not a superset of the allowed pattern %r; earlier events: %s"
+                                % (pos, "pattern-carrying" if e["explicit"] else "legacy", e["desc"], eff, allowed, earlier),
+                                "broker-accept-" + ("pattern" if e["explicit"] else "legacy"))
+            elif r == "returned-but-registered":
+                return ("event %d of a history on one broker context: %s was answered at once (not admitted) but its session "
+                        "id is registered; earlier events: %s" % (pos, e["desc"], earlier), "broker-registration-leak")
+            elif r not in ("rejected", "badrequest"):
+                return ("event %d of a history on one broker context: %s answered irregularly: %s" % (pos, e["desc"], r[:100]),
+                        "broker-history-irregular")
+        elif e["kind"] == "client":
+            if r.startswith("served:"):
+                k = int(r[7:]) if r[7:].isdigit() else -1
+                if k not in waiting:
+                    what = ("the poll at position %d, which was answered %r" % (k, res[k - 1])
+                            if 1 <= k <= len(res) else "an unknown poll")
+                    return ("event %d of a history on one broker context: a client was handed to %s (not a registered, "
+                            "waiting poll); earlier events: %s" % (pos, what, earlier), "broker-client-to-unregistered-poll")
+                waiting.discard(k)
+            elif r != "noproxies":
+                return ("event %d of a history on one broker context: client offer ended irregularly: %s" % (pos, r[:100]),
+                        "broker-history-irregular")
+        elif e["kind"] == "install":
+            if r != "installed":
+                return ("re-installation of the patterns answered with: " + r[:100], "broker-history-irregular")
+    f = fields(impl)
+    if "avail" not in f or "heap" not in f:
+        return ("unreadable driver answer: " + impl[:200], "broker-history-irregular")
+    if f["avail"] != str(len(waiting)) or f["heap"] != str(len(waiting)):
+        return ("after the history %d polls are registered and waiting, but the broker holds %s session ids and %s heap "
+                "entries: a rejected or served poll left a registration behind (or a registered one vanished)"
+                % (len(waiting), f["avail"], f["heap"]), "broker-registration-leak")
+    return None
+
+
+def sess_offers(line):
+    """-> (config dict, list of offers) for a sess line; offer = dict(raw, parse=None|(scheme, host), reparse=None|'-'|(scheme, host))"""
+    a = line.split(" ")
+    def tok(t):
+        f = t.split(";")
+        raw = unhx(f[0])
+        if f[1] == "E":
+            return dict(raw=raw, rawhex=f[0], parse=None, reparse="-")
+        parse = (unhx(f[2]), unhx(f[3]))
+        if f[4] == "E":
+            return dict(raw=raw, rawhex=f[0], parse=parse, hosthex=f[3], reparse=None)
+        return dict(raw=raw, rawhex=f[0], parse=parse, hosthex=f[3], reparse=(unhx(f[5]), unhx(f[6])))
+    cfg = dict(stopper=a[2], pattern=unhx(a[7]), pathex=a[7], allow=a[8] == "1", relay=tok(a[9]),
+               broker=unhx(a[10]), probe=unhx(a[11]), stun=unhx(a[12]))
+    return cfg, [tok(t) for t in a[13].split(",")]
+
+
+def sess_facts_needed(line):
+    cfg, offers = sess_offers(line)
+    return [(cfg["pathex"], cfg["pathex"], o["hosthex"]) for o in offers if o["parse"] is not None]
+
+
+def sess_dialled(line, impl):
+    cfg, _ = sess_offers(line)
+    out = []
+    for r in impl.split(","):
+        m = r.split("dial:")
+        if len(m) == 2 and m[1] != "none" and m[1].count(":") == 1:
+            out.append((cfg["pathex"], cfg["pathex"], m[1].split(":")[1]))
+    return out
+
+
+def sess_prop_one(cfg, o, r, where):
+    pattern, allow, raw = cfg["pattern"], cfg["allow"], o["raw"]
+    if r == "refuse":
+        return None
+    if not r.startswith("dial:") :
+        if "+dial:" in r:
+            return ("%srelay dial (%s) although the session was refused, relay URL %r" % (where, r, raw), "proxy-relay-url")
+        return ("%ssession ended irregularly: %s" % (where, r[:200]), "proxy-session-irregular")
+    # the session proceeded
+    if o["parse"] is None:
+        return ("%ssession proceeds although the relay URL %r does not parse" % (where, raw), "proxy-proceeds-unparsable")
+    scheme, host = o["parse"]
+    if raw != b"":
+        if not impl_member(cfg["pathex"], o["hosthex"]) or documented_nonmember(pattern, host):
+            return ("%ssession proceeds with relay URL %r whose hostname %r fails the proxy's pattern %r "
+                    "(configured: RelayURL=%r BrokerURL=%r NATProbeURL=%r STUNURL=%r)"
+                    % (where, raw, host, pattern, cfg["relay"]["raw"], cfg["broker"], cfg["probe"], cfg["stun"]), "proxy-relay-url")
+        if not allow and scheme != b"wss":
+            return ("%ssession proceeds with relay URL %r of scheme %r while non-TLS relays are not allowed "
+                    "(configured: RelayURL=%r)" % (where, raw, scheme, cfg["relay"]["raw"]), "proxy-relay-url")
+    if r == "dial:none":
+        return None
+    d = r.split(":")
+    if len(d) != 3 or d[1] not in "01" or not d[2].startswith("x"):
+        return ("%sunreadable driver answer: %s" % (where, r[:200]), "proxy-session-irregular")
+    tls, dh = d[1] == "1", unhx(d[2])
+    if raw == b"":
+        cr = cfg["relay"]
+        want = cr["parse"][1] if cr["parse"] else None
+        if dh != want:
+            return ("%sbroker sent no relay URL but the proxy dialled %r instead of its configured relay %r"
+                    % (where, dh, cr["raw"]), "proxy-relay-url")
+        return None
+    if dh != host:
+        return ("%sthe proxy checked hostname %r of relay URL %r but dialled %r" % (where, host, raw, dh), "proxy-dial-host-differs")
+    if not impl_member(cfg["pathex"], d[2]) or documented_nonmember(pattern, dh):
+        return ("%sproxy dialled relay host %r (URL %r) which fails its pattern %r" % (where, dh, raw, pattern), "proxy-relay-url")
+    if not tls and not allow:
+        return ("%sproxy dialled %r without TLS while non-TLS relays are not allowed" % (where, raw), "proxy-relay-url")
+    if tls != (scheme == b"wss"):
+        return ("%sthe proxy checked scheme %r of relay URL %r but dialled with tls=%s" % (where, scheme, raw, tls), "proxy-dial-host-differs")
+    return None
+
+
+def sess_prop(line, impl):
+    cfg, offers = sess_offers(line)
+    # what the theorems assume of net/url, on the URLs of this case
+    for o in [cfg["relay"]] + offers:
+        if o["parse"] is not None and o["reparse"] not in (None, "-") and tuple(o["reparse"]) != tuple(o["parse"]):
+            return ("net/url: %r parses to scheme %r host %r, but the string printed from that parse (client_ip set) parses to "
+                    "scheme %r host %r: the host checked would not be the host dialled"
+                    % (o["raw"], o["parse"][0], o["parse"][1], o["reparse"][0], o["reparse"][1]), "url-reparse-changes-host", 0)
+    res = impl.split(",")
+    if impl.startswith("!") or len(res) != len(offers):
+        return ("history of %d sessions answered with: %s" % (len(offers), impl[:300]), "proxy-history-irregular", 0)
+    for i, (o, r) in enumerate(zip(offers, res)):
+        where = ""
+        if len(offers) > 1:
+            prev = [x["raw"] for x in offers[:i]]
+            where = "session %d of a history on one long-lived proxy (earlier relay URLs: %s%s): " % (
+                i + 1, "... " if len(prev) > 4 else "", prev[-4:])
+        bad = sess_prop_one(cfg, o, r, where)
+        if bad:
+            return bad + (i,)
+    return None
+
+
+def sess_single(line, i):
+    a = line.split(" ")
+    return " ".join(a[:13] + [a[13].split(",")[i]])
+
+
+def sess_agree(line, model, impl):
+    """model and implementation agree on a sess line; a dial that the websocket library declines (dial:none) where the
+    model expects one is tolerated (user info in the URL, ...: the library's own refusals are not modelled)"""
+    ms, rs = model.split(","), impl.split(",")
+    if len(ms) != len(rs):
+        return False
+    return all(m == r or (r == "dial:none" and m.startswith("dial:")) for m, r in zip(ms, rs))
+
+
 def prop(line, impl, model):
     """C06 evaluated on the implementation's own answers (ensure_facts must have been called for the line)."""
     a = line.split(" ")
     op = a[1]
     if impl.startswith("!panic") or impl == "!died":
         return "implementation panicked/died: " + impl[:300]
+    if op in ("gate", "bseq"):
+        bad = hist_prop(line, impl)
+        return bad[0] if bad else None
+    if op == "sess":
+        bad = sess_prop(line, impl)
+        return bad[0] if bad else None
     if op in SEQ_OPS:
         # every request of the history is judged as if it were alone: C06 quantifies over histories, and the
         # single-request reading of the property does not mention earlier requests
@@ -268,6 +527,21 @@ def prop(line, impl, model):
 def key_of(line, impl, model):
     a = line.split(" ")
     op = a[1]
+    if impl.startswith("!panic") or impl == "!died":
+        return "driver-panic"
+    if op in ("gate", "bseq"):
+        bad = hist_prop(line, impl)
+        return bad[1] if bad else "broker-history-irregular"
+    if op == "sess":
+        bad = sess_prop(line, impl)
+        if not bad:
+            return "proxy-history-irregular"
+        if bad[2] > 0 and bad[1] in ("proxy-relay-url", "proxy-dial-host-differs", "proxy-proceeds-unparsable"):
+            single = sess_single(line, bad[2])
+            fr = fresh_answer(single)
+            if fr is not None and sess_prop(single, fr) is None:
+                return "proxy-decision-depends-on-history"
+        return bad[1]
     if op in SEQ_OPS:
         st = seq_steps(line, impl, model)
         if isinstance(st, str):
@@ -422,7 +696,7 @@ def gen_urls(ctx):
     """-> list of (raw url, kind, patterns to try it against)"""
     rng, thorough = ctx.rng, ctx.tier == "thorough"
     pool = url_pool()
-    out = [(u, "pool", URL_PATTERNS if thorough else URL_PATTERNS[:5] + rng.sample(URL_PATTERNS[5:], 3)) for u in pool]
+    out = [(u, "pool", URL_PATTERNS if thorough else URL_PATTERNS[:5] + rng.sample(URL_PATTERNS[5:], 1)) for u in pool]
     derived = []
     for pat in URL_PATTERNS:          # hosts around each pattern's own suffix, so that many sessions proceed
         suf = new_matcher(pat)[1]
@@ -553,8 +827,230 @@ def gen_urlseq(ctx):
     return seqs
 
 
+# ---------------------------------------------------------------- generators for the machines
+
+def pats_around(al, pr):
+    suf = new_matcher(al)[1]
+    return [p for p in dedupe([b"", al, pr, b"$", suf[1:] + b"$", b"x" + al, b"^$", b"^" + suf + b"$"]) if utf8_ok(p)]
+
+
+def gen_gate(ctx):
+    """histories for ONE broker context through the gate: polls of all kinds stay registered while client offers arrive"""
+    rng, thorough = ctx.rng, ctx.tier == "thorough"
+    lines, kinds = [], []
+    def add(al, pr, evs, kind):
+        lines.append("%s gate %s %s %s" % (AREA, hx(al), hx(pr), ",".join(evs)))
+        kinds.append(kind)
+    def poll(nat, cl, kind, pat=b""):
+        return "p:%s:%d:%s:%s" % (nat, cl, kind, hx(pat) if kind == "s" else "x")
+    for al, pr in SEQ_CFGS:
+        ps = pats_around(al, pr)
+        rej = [p for p in ps if not judged_superset(new_matcher(p), new_matcher(al))]
+        acc = [p for p in ps if judged_superset(new_matcher(p), new_matcher(al))]
+        for r in rej[:3]:
+            for a in acc[:2]:
+                # a rejected poll must not be there when a client comes; an admitted one must
+                add(al, pr, [poll("u", 8, "s", r), "c:k", poll("u", 0, "s", a), poll("r", 16, "s", r), "c:k", "c:u", "c:k"],
+                    "gate-rejected-then-client")
+                add(al, pr, [poll("r", 8, "s", a), poll("r", 0, "l"), poll("r", 24, "n"), poll("r", 16, "s", r), "c:u", "c:u", "c:u", "c:u"],
+                    "gate-mixed-polls-then-clients")
+    for _ in range(120 if not thorough else 2500):
+        if rng.random() < 0.6:
+            al, pr = rng.choice(SEQ_CFGS)
+        else:
+            h = rand_host(rng)
+            al, pr = rule_from(rng, h), rule_from(rng, h)
+        h = new_matcher(al)[1] or b"a.b"
+        pool = pats_around(al, pr) + [p for p in (rule_from(rng, h) for _ in range(2)) if utf8_ok(p)]
+        counts = rng.sample(range(0, 64), 12)
+        evs = []
+        for _ in range(rng.randrange(3, 11)):
+            if evs and rng.random() < 0.35:
+                evs.append("c:" + rng.choice("uurk"))
+            else:
+                evs.append(poll(rng.choice("uurk"), counts.pop(), rng.choice("sssssllln"), rng.choice(pool)))
+        add(al, pr, evs, "gate-random-history")
+    return lines, kinds
+
+
+VERSIONS = ["1.0", "1.1", "1.2", "1.3", "1.2.1", "1.2.x", "1", "1.10", "1.03", "1.", None, "", "2.0", "1x", ".1", "0.3"]
+
+
+def jstr(b):
+    return json.dumps(b.decode("utf-8") if isinstance(b, bytes) else b, ensure_ascii=False)
+
+
+def poll_body(sid, version, field, nat="unknown", clients=0, typ="standalone", order=None, key="AcceptedRelayPattern"):
+    """field: None = absent, "null", or bytes"""
+    ents = [("Sid", jstr(sid))]
+    if version is not None:
+        ents.append(("Version", jstr(version)))
+    ents += [("Type", jstr(typ)), ("NAT", jstr(nat)), ("Clients", str(clients))]
+    if field is not None:
+        ents.append((key, "null" if field == "null" else jstr(field)))
+    if order == "field-first":
+        ents = ents[-1:] + ents[:-1]
+    return ("{" + ",".join(json.dumps(k) + ":" + v for k, v in ents) + "}").encode("utf-8")
+
+
+NATNAME = {"u": "unrestricted", "r": "restricted", "k": "unknown"}
+
+
+def gen_bseq(ctx):
+    """histories for ONE broker context through the wire decoder -> list of (allowed, presumed, [event specs], kind);
+    event spec: ("b", body bytes) | ("i", allowed, presumed) | ("c", nat)"""
+    rng, thorough = ctx.rng, ctx.tier == "thorough"
+    out = []
+    G_ = b"snowflake.torproject.net$"
+    cfgs = [(G_, G_), (G_, b"torproject.net$"), (G_, b"snowflake.bamsoftware.com$"), (G_, b"^snowflake.torproject.net$"),
+            (b"^snowflake.torproject.net$", b"snowflake.torproject.net$"), (b"^snowflake.torproject.net$", b"^02.snowflake.torproject.net$")]
+    # (a) every combination of announced version x state of the field x presumed pattern covering or not
+    for al, pr in cfgs if thorough else cfgs[:4] + [rng.choice(cfgs[4:])]:
+        suf = new_matcher(al)[1]
+        sup, nonsup = (b"net$" if not new_matcher(al)[0] else al), b"x" + suf + b"$"
+        for ver in VERSIONS:
+            fields_ = [None, "null", b"", sup, nonsup, al]
+            rng.shuffle(fields_)
+            evs, counts = [], rng.sample(range(0, 64), len(fields_))
+            for j, f in enumerate(fields_):
+                nat = rng.choice("uurk")
+                evs.append(("b", poll_body("s%d" % (j + 1), ver, f, nat=NATNAME[nat], clients=counts[j])))
+            evs += [("c", "k"), ("c", "u"), ("c", "k"), ("c", "u")]
+            out.append((al, pr, evs, "bseq-version-x-field-x-presumed"))
+    # (b) other shapes of the same request on the wire
+    al, pr = G_, b"torproject.net$"
+    non = b"x" + G_
+    def raw(t):
+        return t.encode("utf-8") if isinstance(t, str) else t
+    shapes = [
+        poll_body("s1", "1.2", non, key="acceptedrelaypattern"),
+        poll_body("s1", "1.2", non, key="ACCEPTEDRELAYPATTERN"),
+        poll_body("s1", "1.0", non, order="field-first"),
+        raw('{"Sid":"s1","Version":"1.2","AcceptedRelayPattern":%s,"AcceptedRelayPattern":null}' % jstr(non)),
+        raw('{"Sid":"s1","Version":"1.2","AcceptedRelayPattern":null,"AcceptedRelayPattern":%s}' % jstr(non)),
+        raw('{"Sid":"s1","Version":"1.2","AcceptedRelayPattern":"net$","acceptedrelaypattern":%s}' % jstr(non)),
+        raw('{"Sid":"s1","Version":"1.3","AcceptedRelayPattern":%s,"Version":"1.0"}' % jstr(non)),
+        raw('{"Sid":"s1","Version":"1.0","AcceptedRelayPattern":%s,"Version":"1.3"}' % jstr(non)),
+        raw('{"Sid":"s1","Version":1.2,"AcceptedRelayPattern":%s}' % jstr(non)),
+        raw('{"Sid":"s1","Version":"1.2","AcceptedRelayPattern":7}'),
+        raw('{"Sid":"s1","Version":"1.2","AcceptedRelayPattern":[%s]}' % jstr(non)),
+        raw('{"Sid":"s1","Version":"1.2","AcceptedRelayPattern":{"x":%s}}' % jstr(non)),
+        raw(' {\n"Sid" : "s1" ,\t"Version":"1.1", "Extra":{"AcceptedRelayPattern":"net$"}, "AcceptedRelayPattern" : %s } ' % jstr(non)),
+        raw('{"Sid":"s1","Version":"1.2","\\u0041cceptedRelayPattern":%s}' % jstr(non)),
+        raw('{"Sid":"s1","Version":"1.2","AcceptedRelayPattern":"\\u0078%s"}' % G_.decode()),
+        raw('{"Sid":"s1","Version":"1.2","AcceptedRelayPattern":%s' % jstr(non)),
+        raw('{"Sid":"","Version":"1.2","AcceptedRelayPattern":"net$"}'),
+        raw('{"Sid":"s1","Version":"1.2","NAT":"weird","AcceptedRelayPattern":"net$"}'),
+        raw('null'), raw('[]'), raw(''), raw('{}'),
+        poll_body("s1", "1.2", non, typ="webext"), poll_body("s1", "1.2", non, typ="someembedder"),
+    ]
+    for b in shapes:
+        good = poll_body("s2", "1.3", b"net$", clients=8)
+        out.append((al, pr, [("b", b), ("c", "k"), ("b", good), ("b", b.replace(b'"s1"', b'"s3"')), ("c", "k"), ("c", "k")], "bseq-wire-shapes"))
+    # (c) random histories with re-installations
+    for _ in range(60 if not thorough else 1500):
+        al, pr = rng.choice(cfgs)
+        suf = new_matcher(al)[1]
+        pool = [None, "null", b"", b"net$", b"x" + suf + b"$", al, pr, b"$", b"^$"]
+        counts = rng.sample(range(0, 64), 12)
+        evs = []
+        for j in range(rng.randrange(3, 10)):
+            r = rng.random()
+            if evs and r < 0.3:
+                evs.append(("c", rng.choice("uurk")))
+            elif evs and r < 0.4:
+                nal, npr = rng.choice([(pr, al), (al, b"x" + pr), (al, b"$"), (al, pr)])
+                evs.append(("i", nal, npr))
+            else:
+                nat = rng.choice("uurk")
+                evs.append(("b", poll_body("s%d" % (j + 1), rng.choice(VERSIONS[:6] + [rng.choice(VERSIONS)]), rng.choice(pool),
+                                           nat=NATNAME[nat], clients=counts.pop())))
+        out.append((al, pr, evs, "bseq-random-history" + ("-with-reinstall" if any(e[0] == "i" for e in evs) else "")))
+    return out
+
+
+def bseq_lines(exe_msg, specs):
+    """phase 1: the JSON value Go's parser sees in every body (driver zz_verif/messages op gen), then the case lines"""
+    bodies = sorted({e[1] for _, _, evs, _ in specs for e in evs if e[0] == "b"})
+    rc, jv, err = vlib.run_impl(exe_msg, ["messages gen " + hx(b) for b in bodies])
+    if rc != 0 or len(jv) != len(bodies):
+        raise RuntimeError("messages driver failed in the generic parse: " + err[-300:])
+    jv_of = {b: ("!" if j.startswith("!") else j) for b, j in zip(bodies, jv)}
+    lines, kinds = [], []
+    for al, pr, evs, kind in specs:
+        toks = []
+        for e in evs:
+            if e[0] == "b":
+                toks.append("b:%s:%s" % (hx(e[1]), jv_of[e[1]]))
+            elif e[0] == "i":
+                toks.append("i:%s:%s" % (hx(e[1]), hx(e[2])))
+            else:
+                toks.append("c:" + e[1])
+        lines.append("%s bseq %s %s %s" % (AREA, hx(al), hx(pr), ",".join(toks)))
+        kinds.append(kind)
+    return lines, kinds
+
+
+# (how Start() is made to return [-ProxyType], RelayURL, BrokerURL, NATProbeURL, STUNURL) as the operator gives them; b"" = not given
+SESS_CONFIGS = [("s", b"", b"", b"", b""), ("p", b"", b"", b"", b""),
+                ("p-webext", b"wss://relay.example.net/", b"https://broker.example.net/", b"https://probe.example.net:8443/probe",
+                 b"stun:stun.example.net:3478"),
+                ("s-iptproxy", b"wss://" + CONFIGURED_HOST + b"/", b"", b"", b""),
+                ("p", b"ws://127.0.0.1:8080/", b"https://broker.example.net/", b"", b"")]
+
+
+def host_of(u):
+    h = u.split(b"://", 1)[-1].split(b"/", 1)[0]
+    return h.rsplit(b":", 1)[0] if b":" in h else h
+
+
+def gen_sess(ctx, effective):
+    """sessions of ONE proxy configured through Start() -> list of (config index, pattern, allow, [raw relay URLs], kind).
+    effective[i] = (RelayURL, BrokerURL, NATProbeURL, STUNURL) as Start() leaves them for SESS_CONFIGS[i]"""
+    rng, thorough = ctx.rng, ctx.tier == "thorough"
+    out = []
+    pool_all = url_pool()
+    for ci, eff in enumerate(effective):
+        relay, brk, probe, stun = eff
+        rh = host_of(relay)
+        pats = dedupe([b"snowflake.torproject.net$", b"^" + rh + b"$", b"$", rh.split(b".", 1)[-1] + b"$", b"^$", b"torproject.net$"])
+        if not thorough:
+            pats = pats[:3] + [rng.choice(pats[3:])]
+        scheme = relay.split(b":", 1)[0]
+        other = b"ws" if scheme == b"wss" else b"wss"
+        eq = [relay, brk, probe, stun]
+        near = [relay + b"x", relay[:-1], other + relay[len(scheme):], relay + b"?a=1", relay.replace(rh, b"x" + rh), relay.replace(rh, rh + b".evil.com"),
+                scheme.upper() + relay[len(scheme):], relay.replace(rh, rh.upper()), b"wss://" + host_of(brk) + b"/", b"ws://" + rh + b"/", b"wss://" + rh + b"/other"]
+        std = [b"", b"wss://" + G + b"/", b"ws://" + G + b"/", b"wss://evil.com/", b"%zz", b"wss://u@" + G + b"/"]
+        for pat in pats:
+            for allow in "01":
+                # a broker-supplied URL equal to / close to each configured string, alone and after one another
+                us = eq + near + std
+                rng.shuffle(us)
+                out.append((ci, pat, allow, us, "sess-url-equal-to-configured-string"))
+                out.append((ci, pat, allow, [relay, b"", relay], "sess-url-equal-to-configured-string"))
+        for _ in range(6 if not thorough else 80):
+            pat = rng.choice(pats + URL_PATTERNS[:4])
+            cand = eq + near + std + offers_around(pat) + [rng.choice(pool_all), mutate(rng, rng.choice(eq[:1] + near))]
+            out.append((ci, pat, rng.choice("001"), [rng.choice(cand) for _ in range(rng.randrange(3, 8))], "sess-random-history"))
+    # the adversarial pool once under a Start()-made configuration
+    for u in pool_all:
+        ci = rng.randrange(len(effective))
+        out.append((ci, rng.choice(URL_PATTERNS[:5]), rng.choice("01"), [u], "sess-pool"))
+    return out
+
+
+def stage(ctx, name):
+    now = time.time()
+    last = ctx.extra.get("_t")
+    if last is not None:
+        ctx.extra.setdefault("stage_seconds", {})[last[0]] = round(now - last[1], 1)
+    ctx.extra["_t"] = (name, now)
+
+
 def run(ctx):
     os.environ["VERIF_DRIVER"] = "1"
+    stage(ctx, "build")
     ctx.assumptions += [
         "models = coq/Model/NameMatcher.v, coq/Model/RelayCheck.v (hand written); tie = correspondence on generated cases",
         "url.Parse / URL.Hostname / encoding/json are library boundaries: the scheme and hostname of each relay URL are "
@@ -570,20 +1066,37 @@ def run(ctx):
     # (i) exported namematcher API
     exe_nm = vlib.go_build("./zz_verif/namematcher")
     lines, kinds = gen_matcher(ctx)
+    stage(ctx, "namematcher-api")
     ctx.correspond(exe_nm, lines, kinds, label="namematcher-api", prop=prop, key_of=key_of)
+    stage(ctx, "build-broker-proxy")
     # (ii) broker decision through IPC.ProxyPolls
     exe_br = vlib.go_test_build("./broker")
     exe_px = vlib.go_test_build("./proxy/lib")
     EXES.update(nm=exe_nm, br=exe_br, px=exe_px)
     lines, kinds = gen_poll(ctx)
+    stage(ctx, "broker-proxypolls")
     ensure_facts(exe_nm, [t for l in lines for t in facts_needed(l)])
     ctx.correspond(exe_br, lines, kinds, label="broker-proxypolls", prop=prop, key_of=key_of, impl_args=TEST_ARGS)
     # (ii') histories on one broker context
     lines, kinds = gen_pollseq(ctx)
+    stage(ctx, "broker-proxypolls-history")
     ensure_facts(exe_nm, [t for l in lines for t in facts_needed(l)])
     ctx.correspond(exe_br, lines, kinds, label="broker-proxypolls-history", prop=prop, key_of=key_of, impl_args=TEST_ARGS)
     ctx.extra["broker_polls_in_histories"] = sum(1 for l in lines for e in l.split(" ")[4].split(",") if e[0] != "c")
+    # (ii'') the gated matching machine: polls stay registered while client offers arrive (grun), and the same through
+    # the wire decoder with the counters and re-installations (brun)
+    lines, kinds = gen_gate(ctx)
+    stage(ctx, "broker-gate-history")
+    ensure_facts(exe_nm, [t for l in lines for t in facts_needed(l)])
+    ctx.correspond(exe_br, lines, kinds, label="broker-gate-history", prop=prop, key_of=key_of, impl_args=TEST_ARGS)
+    stage(ctx, "broker-wire-history")
+    exe_msg = vlib.go_build("./zz_verif/messages")
+    lines, kinds = bseq_lines(exe_msg, gen_bseq(ctx))
+    ensure_facts(exe_nm, [t for l in lines for t in facts_needed(l)])
+    ctx.correspond(exe_br, lines, kinds, label="broker-wire-history", prop=prop, key_of=key_of, impl_args=TEST_ARGS)
+    ctx.extra["broker_polls_through_wire_decoder"] = sum(1 for l in lines for e in l.split(" ")[4].split(",") if e[0] == "b")
     # (iii) proxy decision: library boundary first, then runSession / datachannelHandler
+    stage(ctx, "proxy-dial")
     urls = gen_urls(ctx)
     seqs = gen_urlseq(ctx)
     seq_raws = sorted({u for _, _, _, us, _ in seqs for u in us})
@@ -613,10 +1126,44 @@ def run(ctx):
         ctx.correspond(exe_px, cheap, ckinds, label="proxy-runSession", prop=prop, key_of=key_of, impl_args=TEST_ARGS)
     correspond_full(ctx, exe_px, exe_nm, full, fkinds)
     # (iii') histories on one proxy
+    stage(ctx, "proxy-histories")
     ensure_facts(exe_nm, [t for l in hcheap + hfull for t in facts_needed(l)])
     ctx.correspond(exe_px, hcheap, hckinds, label="proxy-runSession-history", prop=prop, key_of=key_of, impl_args=TEST_ARGS)
     correspond_full(ctx, exe_px, exe_nm, hfull, hfkinds, label="proxy-dial-history")
     ctx.extra["proxy_sessions_in_histories"] = sum(len(l.split(" ")[4].split(",")) for l in hcheap + hfull)
+    # (iii'') one proxy configured through the real Start(), end to end: relay URL string -> check -> dial target
+    stage(ctx, "proxy-started-session")
+    run_sess(ctx, exe_px, exe_nm)
+    stage(ctx, "end")
+    del ctx.extra["_t"]
+
+
+def run_sess(ctx, exe_px, exe_nm):
+    rc, eff, err = vlib.run_impl(exe_px, ["%s startcfg %s %s" % (AREA, c[0], " ".join(hx(x) for x in c[1:])) for c in SESS_CONFIGS],
+                                 args=TEST_ARGS)
+    if rc != 0 or len(eff) != len(SESS_CONFIGS) or any(len(e.split(" ")) != 5 or not e.startswith("x") for e in eff):
+        ctx.violation("proxy-start-irregular", "SnowflakeProxy.Start() did not return its configuration error after applying "
+                      "the defaults: %s %s" % (eff[:3], err[-300:]), dict(label="proxy-start", case=None))
+        return
+    effective = [tuple(unhx(t) for t in e.split(" ")[:4]) for e in eff]
+    specs = gen_sess(ctx, effective)
+    raws = sorted({u for _, _, _, us, _ in specs for u in us} | {e[0] for e in effective})
+    rc, parsed, err = vlib.run_impl(exe_nm, ["%s urlparse2 %s" % (AREA, hx(u)) for u in raws])
+    if rc != 0 or len(parsed) != len(raws):
+        raise RuntimeError("urlparse2 driver failed: " + err[-300:])
+    tok = dict(zip(raws, parsed))
+    lines, kinds = [], []
+    for ci, pat, allow, us, kind in specs:
+        us = [u for u in us if not unhx(tok[u].split(";")[0]).startswith(b"\x00")]
+        if not us:
+            continue
+        c, e = SESS_CONFIGS[ci], effective[ci]
+        lines.append("%s sess %s %s %s %s %s %s %s" % (AREA, c[0], " ".join(hx(x) for x in c[1:]), hx(pat), allow,
+                                                        tok[e[0]], " ".join(hx(x) for x in e[1:]), ",".join(tok[u] for u in us)))
+        kinds.append(kind)
+    ensure_facts(exe_nm, [t for l in lines for t in facts_needed(l)])
+    correspond_full(ctx, exe_px, exe_nm, lines, kinds, label="proxy-started-session", agree=sess_agree, dialled=sess_dialled, maxlen=3000)
+    ctx.extra["proxy_sessions_after_start"] = sum(len(l.split(" ")[13].split(",")) for l in lines)
 
 
 def full_class(impl):
@@ -647,10 +1194,10 @@ def full_agrees(m, r):
     return ok and " dial=" in r
 
 
-def correspond_full(ctx, exe, exe_nm, lines, kinds, label="proxy-dial"):
+def correspond_full(ctx, exe, exe_nm, lines, kinds, label="proxy-dial", agree=None, dialled=None, maxlen=400):
     model = vlib.run_model(lines)
     rc, impl, err = vlib.run_impl(exe, lines, args=TEST_ARGS)
-    ensure_facts(exe_nm, [t for l, r in zip(lines, impl) for t in dialled_hosts(l, r)])
+    ensure_facts(exe_nm, [t for l, r in zip(lines, impl) for t in (dialled or dialled_hosts)(l, r)])
     if rc != 0 or len(impl) != len(lines):
         idx = len(impl)
         ctx.violation("driver-crash", "implementation driver died (rc=%s) at case %d: %s" % (rc, idx, err[-600:]),
@@ -665,7 +1212,9 @@ def correspond_full(ctx, exe, exe_nm, lines, kinds, label="proxy-dial"):
         if bad:
             ctx.violation(key_of(l, r, m), bad, dict(label=label, case=l[:20000], impl=r[:4000], model=m[:4000]))
             continue
-        if l.split(" ")[1] == "urlseqfull":       # prop() has checked that the answers align with the requests
+        if agree is not None:
+            ok = agree(l, m, r)
+        elif l.split(" ")[1] == "urlseqfull":       # prop() has checked that the answers align with the requests
             ok = all(full_agrees(sm, sr) for _, sr, sm, _ in seq_steps(l, r, m))
         else:
             ok = full_agrees(m, r)
@@ -674,14 +1223,15 @@ def correspond_full(ctx, exe, exe_nm, lines, kinds, label="proxy-dial"):
             if ndis <= 5:
                 ctx.not_shown("correspondence %s: model and implementation disagree on case `%s`: model=%s impl=%s; "
                               "the property predicate found no failure on it" % (label, l[:500], m[:300], r[:300]))
-    short = [(l, m) for l, m in zip(lines, model) if len(l) < 400]
+    short = [(l, m) for l, m in zip(lines, model) if len(l) < maxlen]
     ctx.rng.shuffle(short)
     bad = vlib.coq_crosscheck(short[:40])
     ctx.extra["vm_compute_crosschecked"] = ctx.extra.get("vm_compute_crosschecked", 0) + len(short[:40])
     for i in bad:
         ctx.not_shown("extraction cross-check: vm_compute and extracted runner differ on `%s`" % short[i][0][:300])
     ctx.extra["relay_dials_observed"] = ctx.extra.get("relay_dials_observed", 0) + sum(
-        1 for r in impl for x in r.split(" | ") if " dial=" in x and " dial=none" not in x)
+        1 for r in impl for x in r.split(" | ") if " dial=" in x and " dial=none" not in x) + sum(
+        1 for l, r in zip(lines, impl) if l.split(" ")[1] == "sess" for x in r.split(",") if x.startswith("dial:") and x != "dial:none")
 
 
 def replay(ctx, doc):
@@ -695,7 +1245,7 @@ def replay(ctx, doc):
         op = case.split(" ")[1]
         if op in ("sup", "nm"):
             exe, args = exes.setdefault("nm", vlib.go_build("./zz_verif/namematcher")), ()
-        elif op in ("poll", "pollseq"):
+        elif op in ("poll", "pollseq", "gate", "bseq"):
             exe, args = exes.setdefault("br", vlib.go_test_build("./broker")), TEST_ARGS
         else:
             exe, args = exes.setdefault("px", vlib.go_test_build("./proxy/lib")), TEST_ARGS
@@ -704,7 +1254,8 @@ def replay(ctx, doc):
         r = r[0] if r else "!died"
         exe_nm = exes.setdefault("nm", vlib.go_build("./zz_verif/namematcher"))
         EXES.update(exes)
-        ensure_facts(exe_nm, facts_needed(case) + (dialled_hosts(case, r) if op in ("urlfull", "urlseqfull") else []))
+        ensure_facts(exe_nm, facts_needed(case) + (dialled_hosts(case, r) if op in ("urlfull", "urlseqfull") else [])
+                     + (sess_dialled(case, r) if op == "sess" else []))
         p = prop(case, r, m)
         print("case: %s\n model: %s\n impl:  %s\n property: %s" % (case[:300], m[:300], r[:300], p or "holds"))
         bad += 1 if p else 0
